@@ -80,7 +80,7 @@ def run(c):
         return {"r": list(guarded(lambda: pifs(a, k=c["k"], seed=5).tolist(), secs=10))}
     if "real_seed" in c:
         a = np.array(c["m"]); outs = []; same = []
-        for gs, mk in ((1, lambda: c["real_seed"]), (2, lambda: c["real_seed"]), (3, lambda: np.random.RandomState(c["real_seed"] % 2**32)), (4, lambda: np.random.RandomState(c["real_seed"] % 2**32))):
+        for gs, mk in ((1, lambda: c["real_seed"]), (2, lambda: c["real_seed"]), (3, lambda: np.random.RandomState(seed_int(c["real_seed"]))), (4, lambda: np.random.RandomState(seed_int(c["real_seed"])))):
             np.random.seed(gs); g0 = np.random.get_state()[1].tobytes()
             r = guarded(lambda: pifs(a, k=c["k"], seed=mk()).tolist(), secs=20)
             same.append(g0 == np.random.get_state()[1].tobytes()); outs.append(list(r))
